@@ -98,7 +98,7 @@ def _subset(pat, val):
 
 def write_replay(prop, task, viol):
     os.makedirs(REPLAYS, exist_ok=True)
-    body = {"property": prop, "harness": task["harness"], "params": task.get("params", {}),
+    body = {"property": prop, "harness": viol.get("harness", task["harness"]), "params": viol.get("params", task.get("params", {})),
             "model": viol["model"], "script": viol["script"], "label": viol["label"],
             "detail": viol.get("detail", ""), "pythonhashseed": "0"}
     h = hashlib.sha256(json.dumps(body, sort_keys=True, default=str).encode()).hexdigest()[:12]
